@@ -452,7 +452,8 @@ class Replayer:
         self.ctx.count(('lex', kind, cd.S(chars)), nontrivial=status == 'ok')
         if kind == 'host':
             wants = [('err',) if status == 'err' else
-                     ('ok', status == 'ok' and t in words)
+                     # an ignored line leaves the Port line unconditional
+                     ('ok', status == 'ign' or t in words)
                      for t in cd.LEX_TARGETS]
             obs = [cd.lex_load(world, kind, text, t) for t in cd.LEX_TARGETS]
         else:
